@@ -153,6 +153,9 @@ func GenConc(seed uint64, prop string, p ConcParams) *Case {
 				} else {
 					t.End = "discard"
 				}
+			} else if p.Abandon && t.Mode == "rw" && r.Intn(3) == 0 {
+				// Commit (which may be refused), then keep using the finished transaction as a naive retry would
+				t.End = "after"
 			}
 			acts = append(acts, Action{Kind: "txn", Txn: t})
 		}
@@ -648,6 +651,27 @@ func CheckNoTrace(c *Case, h *History) (vs []Violation, reads int) {
 					abandoned[op.Val] = t.ID
 				} else {
 					abandoned[op.Val] = t.ID // overwritten inside its own transaction: never committed either
+				}
+			}
+		}
+	}
+	for _, t := range allTxns(h) {
+		for _, op := range t.Ops {
+			switch op.K {
+			case "after-set":
+				abandoned[op.Val] = t.ID
+				fallthrough
+			case "after-del", "after-commit":
+				reads++
+				if op.Err != "discarded" && !(t.Mode == "ro" && op.Err == "readonly") {
+					vs = append(vs, Violation{Oracle: "misuse", Class: "use-after-finish", Seq: op.Call,
+						Msg: fmt.Sprintf("txn %d (Commit returned %q): %s on the finished transaction returned %q, want ErrDiscardedTxn", t.ID, t.Err, op.K, op.Err)})
+				}
+			case "after-get":
+				reads++
+				if op.Found {
+					vs = append(vs, Violation{Oracle: "misuse", Class: "use-after-finish", Seq: op.Call,
+						Msg: fmt.Sprintf("txn %d: Get on the finished transaction found %s", t.ID, op.Got)})
 				}
 			}
 		}
